@@ -89,7 +89,7 @@ pub fn record_rayon(path: &str, seed: u64, reps: usize, rep: &mut Report) {
                     LOG.lock().unwrap().clear();
                     // a little noise so that work stealing varies between repetitions
                     let spin = rng.random_range(0..3);
-                    let res: Probe = p.install(|| {
+                    let res: Probe = match std::panic::catch_unwind(std::panic::AssertUnwindSafe(|| p.install(|| {
                         if spin > 0 {
                             rayon::join(|| std::thread::yield_now(), || std::thread::yield_now());
                         }
@@ -98,7 +98,15 @@ pub fn record_rayon(path: &str, seed: u64, reps: usize, rep: &mut Report) {
                         } else {
                             v.clone().into_par_iter().with_min_len(min_len).with_max_len(max_len).collect()
                         }
-                    });
+                    }))) {
+                        Ok(r) => r,
+                        Err(_) => {
+                            writeln!(out, "{}", json!({"op": "run", "n": n})).unwrap();
+                            writeln!(out, "{}", json!({"op": "panic", "n": n, "threads": threads})).unwrap();
+                            rep.behaviours += 1;
+                            continue;
+                        }
+                    };
                     let seq: Kurtosis = v.iter().collect();
                     let smn: Min = v.iter().collect();
                     let smx: Max = v.iter().collect();
@@ -298,7 +306,8 @@ pub fn direct_rayon(seed: u64, max_n: usize, reps: usize, rep: &mut Report) {
                     let cfg = json!({"embedding": ename, "n": n, "threads": threads, "repetition": r, "by_ref": by_ref, "seed": seed, "data_prefix": &data[..data.len().min(12)]});
                     rep.behaviours += 1;
                     rep.nontrivial.insert(hash_str(&cfg.to_string()));
-                    p.install(|| {
+                    let guarded = std::panic::catch_unwind(std::panic::AssertUnwindSafe(|| p.install(|| {
+                        let rep = &mut *rep;
                         check_type::<average::Mean>(&data, &xs, &e, &t, &cfg, by_ref, rep, &mut spread);
                         check_type::<average::Variance>(&data, &xs, &e, &t, &cfg, by_ref, rep, &mut spread);
                         check_type::<average::Skewness>(&data, &xs, &e, &t, &cfg, by_ref, rep, &mut spread);
@@ -309,7 +318,10 @@ pub fn direct_rayon(seed: u64, max_n: usize, reps: usize, rep: &mut Report) {
                             check_type::<m10::M10>(&data, &xs, &e, &t, &cfg, by_ref, rep, &mut spread);
                         }
                         check_minmax(&xs, &e, &cfg, by_ref, rep);
-                    });
+                    })));
+                    if guarded.is_err() {
+                        viol(rep, "collect", &e, "panic", "parallel collection panicked".into(), cfg.clone());
+                    }
                     if rep.samples.len() < 3 && n == 17 {
                         rep.sample(cfg);
                     }
